@@ -40,6 +40,8 @@ type Case struct {
 	MinGenesisTimeDelta int64          `json:"min_genesis_time_delta"` // MIN_GENESIS_TIME = genesis_time + delta
 	MinActiveDelta      int64          `json:"min_active_delta"`       // MIN_GENESIS_ACTIVE_VALIDATOR_COUNT = active + delta
 	KickStart           bool           `json:"kickstart"`
+	KickStartSigs       bool           `json:"kickstart_sigs,omitempty"` // KickStartStateWithSignatures (secret keys given)
+	WrongKeyAt          int            `json:"wrong_key_at,omitempty"`   // 1-based entry whose secret key belongs to another validator (0 = none)
 }
 
 var sigMemo = map[[32]byte][96]byte{}
@@ -193,6 +195,14 @@ func run(r *report.Run, c *Case) *report.Failure {
 			vals = append(vals, phase0.KickstartValidatorData{Pubkey: deps[i].Data.Pubkey, WithdrawalCredentials: deps[i].Data.WithdrawalCredentials, Balance: common.Gwei(deps[i].Data.Amount)})
 			d := deps[i]
 			d.Data.Signature = placeholder
+			if c.KickStartSigs {
+				// the function signs every entry's deposit message with the entry's own key
+				for k := uint64(0); k <= uint64(len(deps)); k++ {
+					if refspec.KeyPubkey(k) == d.Data.Pubkey {
+						signDeposit(sp, &d.Data, k)
+					}
+				}
+			}
 			d.Proof = [33]refspec.Root{}
 			rdeps = append(rdeps, d)
 		}
@@ -204,6 +214,43 @@ func run(r *report.Run, c *Case) *report.Failure {
 		}
 		var st *phase0.BeaconStateView
 		var epc *common.EpochsContext
+		if c.KickStartSigs {
+			// KickStartStateWithSignatures: same state as KickStartState (doc: "directly from a sequence of minimal
+			// validator data"), the i-th secret key must be the one of the i-th public key, otherwise an error.
+			byPub := map[[48]byte]uint64{}
+			for k := uint64(0); k <= uint64(len(deps)); k++ {
+				byPub[refspec.KeyPubkey(k)] = k
+			}
+			keys := make([][32]byte, len(vals))
+			for i := range vals {
+				k, ok := byPub[[48]byte(vals[i].Pubkey)]
+				if !ok {
+					return report.Failf("harness", "kick-start key of entry %d not in the key pool", i)
+				}
+				if c.WrongKeyAt == i+1 {
+					k += 7001
+				}
+				keys[i] = refspec.KeySecretBytes(k)
+			}
+			lerr, panicked := sim.Guard(func() error {
+				var err error
+				st, epc, err = phase0.KickStartStateWithSignatures(spec, common.Root(pr), common.Timestamp(c.Eth1Time), vals, keys)
+				return err
+			})
+			if c.WrongKeyAt >= 1 && c.WrongKeyAt <= len(vals) {
+				r.Eval(1)
+				if panicked {
+					return report.Failf("KickStartStateWithSignatures/panic", "wrong secret key at entry %d: %v", c.WrongKeyAt-1, lerr)
+				}
+				if lerr == nil {
+					return report.Failf("KickStartStateWithSignatures/accepted-wrong-key", "entry %d was given the secret key of another validator and a state was returned", c.WrongKeyAt-1)
+				}
+				r.Class("kickstart-sigs:wrong-key->error")
+				r.NonTrivial(family + "|KickStartStateWithSignatures|wrong-key")
+				return nil
+			}
+			return judge(r, c, sp, spec, "KickStartStateWithSignatures", ref, rerr, st, epc, lerr, panicked, kinds, family)
+		}
 		lerr, panicked := sim.Guard(func() error {
 			var err error
 			st, epc, err = phase0.KickStartState(spec, common.Root(pr), common.Timestamp(c.Eth1Time), vals)
@@ -307,6 +354,7 @@ func judge(r *report.Run, c *Case, sp *refspec.Spec, spec *common.Spec, what str
 	}
 	_ = skipped
 	r.Class(what + ":state-produced")
+	r.Hit("entry:" + what)
 	for _, k := range kinds {
 		r.Hit("branch:" + k)
 	}
@@ -389,14 +437,19 @@ func genCase(t *rapid.T) *Case {
 	}
 	c.MinGenesisTimeDelta = int64(rapid.IntRange(-2, 2).Draw(t, "mgt_d"))
 	c.MinActiveDelta = int64(rapid.IntRange(-2, 2).Draw(t, "mac_d"))
-	c.KickStart = rapid.IntRange(0, 4).Draw(t, "kickstart") == 0
+	ks := rapid.IntRange(0, 9).Draw(t, "kickstart")
+	c.KickStart = ks <= 2
+	c.KickStartSigs = ks == 2
+	if c.KickStartSigs && n > 0 && rapid.IntRange(0, 5).Draw(t, "wrongkey") == 0 {
+		c.WrongKeyAt = rapid.IntRange(1, n).Draw(t, "wrong_key_at")
+	}
 	return c
 }
 
 func TestCheck(t *testing.T) {
 	r := report.Begin("C13")
 	defer r.Finish()
-	r.Rule("generated (preset, eth1 hash/time, ordered deposit list) cases: valid deposits, bad proof-of-possession, undecodable and infinity pubkeys, top-ups (good and junk signatures), repeats of skipped keys, a skipped key that later deposits validly, amounts below/at/above MAX_EFFECTIVE_BALANCE and off-increment, corrupted proofs; proofs from the harness's own deposit tree; GenesisFromEth1 and KickStartState against refspec.initialize_beacon_state_from_eth1, returned EpochsContext against NewEpochsContext, IsValidGenesisState with MIN_GENESIS_* drawn around the produced values. non-trivial = >=1 skipped deposit or top-up or non-activated validator (or a rejected list); distinct key = (preset family, entry point, branch-kind set)")
+	r.Rule("generated (preset, eth1 hash/time, ordered deposit list) cases: valid deposits, bad proof-of-possession, undecodable and infinity pubkeys, top-ups (good and junk signatures), repeats of skipped keys, a skipped key that later deposits validly, amounts below/at/above MAX_EFFECTIVE_BALANCE and off-increment, corrupted proofs; proofs from the harness's own deposit tree; GenesisFromEth1, KickStartState and KickStartStateWithSignatures (right keys: same state; one wrong key: error) against refspec.initialize_beacon_state_from_eth1, returned EpochsContext against NewEpochsContext, IsValidGenesisState with MIN_GENESIS_* drawn around the produced values. non-trivial = >=1 skipped deposit or top-up or non-activated validator (or a rejected list); distinct key = (preset family, entry point, branch-kind set)")
 	r.Assume("refspec/refssz are the spec (harness transcription)", "BLS library trusted on both sides", "lists producing fewer than SLOTS_PER_EPOCH validators or no active validator: the documented outcome is an error")
 	replay := func(raw json.RawMessage) *report.Failure {
 		var c Case
@@ -409,7 +462,7 @@ func TestCheck(t *testing.T) {
 	if r.Replay != "" {
 		return
 	}
-	r.Mandatory("branch:new", "branch:badpop", "branch:badkey", "branch:infkey", "branch:topup", "branch:revive", "branch:topup-of-skipped", "branch:not-all-active")
+	r.Mandatory("entry:GenesisFromEth1", "entry:KickStartState", "entry:KickStartStateWithSignatures", "branch:new", "branch:badpop", "branch:badkey", "branch:infkey", "branch:topup", "branch:revive", "branch:topup-of-skipped", "branch:not-all-active")
 	r.Search(t, "lists", 0, r.N(2400, 40000), func(rt *rapid.T) (any, *report.Failure) {
 		c := genCase(rt)
 		return c, run(r, c)
